@@ -339,7 +339,7 @@ def message_rule(ctx, sym, rule):
         fn = mod.func('Feedback.' + name)
         ctx.analysed_function(mod, fn)
         templates = (None, 'T {x}', '{x}', '{blank}', '  {blank}\n', '{pair[0]} and {x}', '{text:>{width}}|',
-                     '{loc.line} {table[key]}')
+                     '{loc.line} {table[key]}', 'about {missing} and {x}')
         for text, tmpl in itertools.product((None, 'TEXT', ''), templates):
             wraps = []
             fmt = Obj('formatter')
@@ -358,6 +358,16 @@ def message_rule(ctx, sym, rule):
             me.attrs[tattr] = tmpl
             fd = symexec.new_fd(sym, mod, calls={'FeedbackFieldWrapper': wrapper})
             got, raised = symexec.run(fd, fn, [], bound_self=me, what='Feedback.' + name)
+            if text is None and tmpl is not None and '{missing}' in tmpl:
+                # a template naming a field nobody supplied cannot be rendered: the error surfaces (the feedback is then
+                # filed as not triggered); what must not happen is a triggered feedback without a message
+                ok = (raised is not None and raised.kind in ('KeyError', 'IndexError')) or isinstance(got, str)
+                ctx.check(ok, rule, '%s[%s=%r,%s=%r]' % (name, attr, text, tattr, tmpl), mod, fn,
+                          "a template naming a missing field %s; expected the KeyError to surface (or some text)" % (
+                              'raises %s' % raised.kind if raised is not None else 'returns %r' % (got,)),
+                          "gently(message_template='{thing} is wrong') with `thing` never given: the feedback is "
+                          "triggered with message None and the submission resolves as correct", construct=name)
+                continue
             if text is not None:
                 want = text
             elif tmpl is not None:
